@@ -23,6 +23,25 @@ def run(res, pool, tier, seed):
 
 
 def build_rep(rep, pose, rng):
+    x = build_rep0(rep, pose, rng)
+    # the same set once more through the library's own forms (C17 makes them equal, so they must also hash equal)
+    r = rng.random()
+    if isinstance(x, Plane) and r < 0.45:
+        if r < 0.2:
+            u, v, w = x.parametric()
+            return Plane(Point(u), v, w)
+        if r < 0.3:
+            return Plane(*x.general_form())
+        if r < 0.4:
+            p, n = x.point_normal()
+            return Plane(Point(p), n)
+        return -x
+    if isinstance(x, Line) and r < 0.2:
+        return Line(*x.parametric())
+    return x
+
+
+def build_rep0(rep, pose, rng):
     o, form = rep["o"], rep["form"]
     k = o["k"]
     num = form if form in ("int", "float", "frac") else rng.choice(("int", "float"))
